@@ -6,7 +6,7 @@ TRUSTED = ["python ast (stdlib)", "RxPY: Subject delivers synchronously in subsc
 
 
 def rules_for(prop):
-    from .rules import mx, st, grp, lv, scan
+    from .rules import mx, st, grp, lv, scan, er, ms
     from functools import partial as P
 
     def named(f, **kw):
@@ -21,6 +21,8 @@ def rules_for(prop):
         "C05": [grp.rule_roll, st.rule_st2_3_4, st.rule_st6,
                 named(lv.rule_lv, only=("roll_mux._roll.subscribe", "roll_mux._roll_count.subscribe"))],
         "C09": scan.RULES,
+        "C13": er.RULES + [mx.rule_wc2],
+        "C14": ms.RULES,
         "C06": [named(grp.rule_eq1, files=("rxsci/data/split.py",), min_instances=7), named(grp.rule_fw1, heads=("split",)), grp.rule_dp4,
                 named(lv.rule_lv, only=("split_mux._split.on_subscribe",))],
         "C07": [grp.rule_time_split, named(grp.rule_fw1, heads=("time_split",)),
